@@ -8,7 +8,8 @@ PROP = {
                      "SwimVerif.Proofs.C03Queue", "SwimVerif.Proofs.C03Pop", "SwimVerif.Proofs.C03Mon",
                      "SwimVerif.Proofs.C03Rel", "SwimVerif.Proofs.C03Inv", "SwimVerif.Proofs.C03Write",
                      "SwimVerif.Proofs.C03Trace", "SwimVerif.Proofs.C03Bridge", "SwimVerif.Proofs.C03Strings",
-                     "SwimVerif.Proofs.C03Lines", "SwimVerif.Proofs.C03Indep", "SwimVerif.Proofs.C03Fails"],
+                     "SwimVerif.Proofs.C03Lines", "SwimVerif.Proofs.C03Indep", "SwimVerif.Proofs.C03Fails",
+                     "SwimVerif.Model.PruneRt", "SwimVerif.Proofs.PruneRt"],
     "engines": [
         e2e_engine("C03"),
         wt_engine("C03", quick=2000),
@@ -17,6 +18,12 @@ PROP = {
          "cases": {"quick": 4000, "thorough": 400000}, "min_shard": 500, "nontrivial_min_ops": 6},
         {"name": "vl", "crate": "core", "bin": "sv-vl", "machine": "vl",
          "cases": {"quick": 3000, "thorough": 300000}, "min_shard": 1000},
+        # who is still registered when it syncs: the prune glue of the write task (`PruneRemotes`, `schedule_prune`,
+        # `remove_remote_if_idle`) under the real AgentRouteTask::run_agent with prune_remote_delay = 701 ms on a
+        # paused clock: remotes attach at different times, link / unlink / sync after various idle times
+        {"name": "rt-prune", "crate": "core", "bin": "sv-c17x", "machine": "c17pr", "gen_args": ["pr"],
+         "reasons": r"prune-.*", "cases": {"quick": 5000, "thorough": 300000}, "min_shard": 1000,
+         "nontrivial_min_ops": 4},
     ],
     "level_text": "Proof of the mechanism, for every state of the write queues: synced is emitted only when the "
                   "request's key snapshot is exhausted and nothing queued ahead of the request is still waiting; a "
